@@ -142,6 +142,7 @@ func (t *FnTrans) call(in ssa.Instruction, c *ssa.CallCommon, res ssa.Value) {
 		sk = sk[i+1:]
 	}
 	t.ghostAt("before call " + sk)
+	defer t.ghostAt("after call " + sk)
 	for _, a := range c.Args {
 		if t.sortOf(a.Type()) == "Int" {
 			if _, isInt := intInfoOf(t.resolve(a.Type())); !isInt {
